@@ -42,7 +42,8 @@ type Hostile struct {
 	StartUS int    `json:"start_us"`
 	TLS     bool   `json:"tls"` // perform a TLS handshake first (TLS servers only)
 	Msgs    []Msg  `json:"msgs"`
-	End     string `json:"end"` // close | rst | silent
+	End     string `json:"end"` // close | rst | silent | deaf (stops reading after message DeafAt, goes on sending, then stays silent)
+	DeafAt  int    `json:"deaf_at,omitempty"`
 }
 
 // Scenario is one C11 run.
@@ -114,11 +115,32 @@ func gen(seed uint64, tier string) Scenario {
 		h.End = []string{"close", "close", "rst", "silent", "silent"}[r.Intn(5)]
 		sc.Hostile = append(sc.Hostile, h)
 	}
+	// a peer that stops reading (plain servers only: under TLS the write path holds a mutex around
+	// the socket call, DESIGN 2.3); hash-derived so that no other choice moves
+	deaf := false
+	if x := core.HS(seed, "c11.deaf", "", 0); !sc.Secure && x%100 < 20 {
+		i := int((x >> 8) % uint64(len(sc.Hostile)))
+		sc.Hostile[i].End = "deaf"
+		sc.Hostile[i].TLS = false
+		sc.Hostile[i].DeafAt = int((x >> 16) % uint64(len(sc.Hostile[i].Msgs)))
+		if (x>>24)%2 == 0 {
+			// the conversation most likely to have a writer running: an interleaved play session
+			sc.Hostile[i].Msgs = nil
+			for k, t := range playConv {
+				sc.Hostile[i].Msgs = append(sc.Hostile[i].Msgs, Msg{Tmpl: t, Read: k < 4, GapUS: 20000})
+			}
+			sc.Hostile[i].DeafAt = 3 + int((x>>32)%3)
+		}
+		deaf = true
+	}
 	n := simnet.Config{Seed: seed ^ 0x11111111}
 	n.LatMinUS = r.Pick(10, 100, 1000)
 	n.LatMaxUS = n.LatMinUS + r.Pick(0, 50, 500)
 	n.ChunkMode = r.Pick(0, 1, 2, 3, 3)
 	n.ChunkMaxLen = r.Pick(64, 512, 4096)
+	if deaf {
+		n.Window = []int{2048, 8192}[core.HS(seed, "c11.window", "", 0)%2]
+	}
 	sc.Net = n
 	return sc
 }
@@ -157,9 +179,16 @@ func build(tmpl string, scheme string, sess string, idx int, mu *peers.Mutator) 
 		return marshal(&base.Request{Method: base.Describe, URL: u("/stream"), Header: hdr})
 	case "setup-udp", "setup-tcp", "setup-rec-udp", "setup-rec-tcp":
 		th := headers.Transport{Delivery: ptrOf(headers.TransportDeliveryUnicast)}
-		if scheme == "rtsps" && mu.Chance("savp", 0.5) {
+		// the secure profile: on TLS servers, and (less often) on plain ones, where it must be refused;
+		// with a garbage key-management header or a fully valid one
+		if (scheme == "rtsps" && mu.Chance("savp", 0.5)) || (scheme == "rtsp" && mu.Chance("savp-plain", 0.25)) {
 			th.Profile = headers.TransportProfileSAVP
 			hdr["KeyMgmt"] = base.HeaderValue{"prot=mikey;uri=\"" + scheme + "://" + host + "/stream\";data=\"" + base64.StdEncoding.EncodeToString(mu.Garbage(60)) + "\""}
+			if mu.Chance("validkm", 0.5) {
+				if km, err := gortsplib.VerifKeyMgmtHeader(scheme+"://"+host+"/stream/trackID=0", mu.Garbage(30), []uint32{0x11223344}); err == nil {
+					hdr["KeyMgmt"] = km
+				}
+			}
 		}
 		if strings.HasSuffix(tmpl, "udp") {
 			th.Protocol = headers.TransportProtocolUDP
@@ -265,7 +294,7 @@ func run(t *testing.T, sc Scenario) *core.Result {
 	var summary map[string]any
 	res := sys.Run(t, opts, func(w *sys.World) {
 		w.ProbeInit("hostile_got_response", "hostile_closed_by_server", "hostile_session_opened", "hostile_tls_handshake", "http_tunnel_attempt",
-			"ws_attempt", "silent_peer_expired", "fresh_client_served", "good_packets", "cleanup_verified")
+			"ws_attempt", "silent_peer_expired", "hostile_stopped_reading", "deaf_peer_expired", "fresh_client_served", "good_packets", "cleanup_verified")
 		rootGID := core.GoID()
 		srvNode := w.Net.Node("srv", "10.0.0.1")
 		h := sys.NewHandler(w)
@@ -484,7 +513,11 @@ func run(t *testing.T, sc Scenario) *core.Result {
 						break
 					}
 					st.lastByte = since()
-					if m.Read {
+					if hc.End == "deaf" && k == hc.DeafAt {
+						raw.Stall(3 * time.Minute)
+						w.Probe("hostile_stopped_reading")
+					}
+					if m.Read && !(hc.End == "deaf" && k >= hc.DeafAt) {
 						conn.SetReadDeadline(time.Now().Add(300 * time.Millisecond))
 						what, err := rc.C.Read()
 						if err == nil {
@@ -520,6 +553,20 @@ func run(t *testing.T, sc Scenario) *core.Result {
 					nc.Close()
 					st.closedBy = "self"
 					st.closedAt = since()
+				case "deaf":
+					// never reads again, says nothing more: the server must still get rid of the connection
+					// (its writes run into WriteTimeout, its reads into the idle / read timeouts)
+					limit := time.Duration(sc.IdleMS+3*sc.ReadMS)*time.Millisecond + 6*time.Second + 2*time.Second
+					time.Sleep(limit)
+					if p := raw.Peer(); p != nil && !p.IsClosed() {
+						w.Fail("c11/hostile-conn kept", "a hostile connection that stopped reading after message %d (script %s, last byte at t=%v) was not closed within IdleTimeout+3xReadTimeout(=WriteTimeout)+8s = %v",
+							hc.DeafAt, describe(hc.Msgs), st.lastByte, limit)
+					} else {
+						st.closedBy = "server"
+						st.closedAt = since()
+						w.Probe("deaf_peer_expired")
+					}
+					nc.Close()
 				case "silent":
 					// keep the connection open and say nothing: the server must get rid of it within its timeouts
 					limit := time.Duration(sc.IdleMS+sc.ReadMS)*time.Millisecond + 6*time.Second + 2*time.Second
